@@ -156,8 +156,14 @@ func init() {
 		if s.Const {
 			return smt.StrLit(strings.TrimSpace(s.Str))
 		}
-		in.X.noteAssumption("strings.TrimSpace: uninterpreted non-injective function of the string")
-		return smt.UF("str_trimspace", []string{"String"}, &smt.Term{K: smt.KStr}, s)
+		in.X.noteAssumption("strings.TrimSpace: uninterpreted function of the string with the lemmas: the result is empty iff the string consists of ASCII white space only; the string itself when it neither starts nor ends with ASCII white space (Unicode spaces outside)")
+		t := smt.UF("str_trimspace", []string{"String"}, &smt.Term{K: smt.KStr}, s)
+		ws := `(re.union (str.to_re " ") (str.to_re "\u{9}") (str.to_re "\u{a}") (str.to_re "\u{b}") (str.to_re "\u{c}") (str.to_re "\u{d}"))`
+		allWS := smt.App(smt.KBool, 0, "str.in_re", s, &smt.Term{K: smt.KBool, S: "(re.* " + ws + ")"})
+		edgeWS := smt.App(smt.KBool, 0, "str.in_re", s, &smt.Term{K: smt.KBool, S: "(re.union (re.++ " + ws + " re.all) (re.++ re.all " + ws + "))"})
+		in.assumeOnce(smt.Eq(smt.Eq(t, smt.StrLit("")), allWS))
+		in.assumeOnce(smt.Implies(smt.Not(edgeWS), smt.Eq(t, s)))
+		return t
 	}
 	models["strings.EqualFold"] = func(in *Interp, fn *ssa.Function, a []Value) Value {
 		s, t := termArg(in, a[0]), termArg(in, a[1])
